@@ -60,6 +60,7 @@ func c14Cells(tier string) []Cell {
 	// for caches of builtin values; each pairing in a fresh process
 	for _, p := range pairs {
 		cells = append(cells, Cell{ID: c14Cell{Mode: "hash0", Src: p[0], Dst: p[1]}.id()})
+		cells = append(cells, Cell{ID: c14Cell{Mode: "reimport", Src: p[0], Dst: p[1]}.id()})
 	}
 
 	return cells
@@ -543,18 +544,68 @@ func init() {
 	}
 }
 
+// reimport: Import, then a type is registered (the types hash of the process changes), then the SAME importer
+// imports again from the same process: both sides have equal hashes each time, so each Import must work;
+// and a request carrying the OLD hash must be refused by the exporter.
+func init() {
+	extraCmds["reimport"] = func(args []string) {
+		ctx := context.Background()
+		steps := [][]interface{}{{HashA{}}, {HashB{}}, {HashC{}, HashD{}}}
+
+		src, dst := newXfer(args[0]), newXfer(args[1])
+		exp, imp := &cache.HTTPTransfer{}, &cache.HTTPTransfer{}
+		exp.AddCache("n", src.WDR())
+		imp.AddCache("n", dst.WDR())
+
+		tr := &inproc{h: exp.Export(), perturb: "none", cutAt: -1, failAt: -1}
+		imp.Transport = tr
+
+		for i, regs := range steps {
+			cache.GobRegister(regs...)
+			src.Put(ctx, []byte(fmt.Sprintf("k%d", i)), i+1)
+
+			tr.statuses = nil
+
+			if err := imp.Import(ctx, "http://exporter.invalid/export"); err != nil {
+				fmt.Println("FAIL Import returned", err)
+				return
+			}
+
+			want, _, _ := src.Snapshot()
+			got, _, _ := dst.Snapshot()
+
+			if msg := compareSnap("importer cache", want, got); msg != "" {
+				fmt.Printf("FAIL import #%d on the same HTTPTransfer after %d GobRegister steps (hashes of both sides are equal: same process): %s; exporter answered %v\n", i+1, i+1, msg, tr.statuses)
+				return
+			}
+		}
+
+		fmt.Println("OK")
+	}
+}
+
 func c14Hash0(cc c14Cell, env *Env) CellResult {
 	res := CellResult{Exhaustive: true, Outcomes: map[string]int{}, Execs: 1, States: 1, Transitions: 3}
 	self, _ := os.Executable()
 
-	out, err := exec.Command(self, "transfer0", cc.Src, cc.Dst).CombinedOutput()
+	sub := "transfer0"
+	if cc.Mode == "reimport" {
+		sub = "reimport"
+	}
+
+	out, err := exec.Command(self, sub, cc.Src, cc.Dst).CombinedOutput()
 	line := strings.TrimSpace(string(out))
 
 	switch {
 	case err != nil:
 		res.Violations = append(res.Violations, Violation{Signature: "C14 hash0 subprocess", Detail: err.Error() + ": " + line})
 	case strings.HasPrefix(line, "FAIL"):
-		res.Violations = append(res.Violations, Violation{Signature: fmt.Sprintf("C14 hash0 %s->%s nothing-imported-with-equal-zero-hash", cc.Src, cc.Dst), Detail: line})
+		kind := "nothing-imported-with-equal-zero-hash"
+		if cc.Mode == "reimport" {
+			kind = "import-after-late-registration"
+		}
+
+		res.Violations = append(res.Violations, Violation{Signature: fmt.Sprintf("C14 %s %s->%s %s", cc.Mode, cc.Src, cc.Dst, kind), Detail: line})
 	case strings.HasPrefix(line, "SKIP"):
 		res.Exhaustive, res.CapHit = false, line
 	}
@@ -724,7 +775,7 @@ func c14Run(c Cell, env *Env) CellResult {
 		return c14Transfer(cc, env)
 	case "faults":
 		return c14Faults(cc, env)
-	case "hash0":
+	case "hash0", "reimport":
 		return c14Hash0(cc, env)
 	}
 
